@@ -33,7 +33,7 @@
   before the supervisors and the allocation processes of an instant, which is the
   hypothesis of `C08_ingest_limit_telescope_first`.
 -/
-import TopsimProofs.IngestLimit9
+import TopsimProofs.IngestLimit23
 
 namespace Topsim
 namespace Sys
@@ -123,4 +123,103 @@ example : ∃ s0 s, WFConfig s0 ∧ ReachOk s0 s ∧ s.ingestPromised = 1 ∧ s.
     c08SchedP_final.2.1, c08SchedP_final.1, c08SchedP_final.2.2⟩
 
 end Sys
+
+/-! ## The deterministic simulator (L3: SimPy's own order)
+
+`SimReach env s0 k`: `k` is produced from `SimState.start s0` by kernel steps
+(`KState.step (simHandler env)`, the least heap entry in the order (time, priority, insertion
+id) each time) and pause hand-overs (`Sys.collate`) — everything `startUntil`, `resumeUntil`,
+`runToCompletion` and `KState.RunsTo` can produce.  `SimRun env s0 k`: kernel steps only, as long
+as the exception flag is down (one uninterrupted `env.run`).
+
+The side condition of `ReachTelFirst` is discharged by two facts (TopsimProofs/IngestLimit10 … 22):
+* `IlTelFirst` (an order invariant of the heap, in the style of `MonFirst`): inside an instant the
+  telescope's block precedes every block of a process other than the monitor and the task bodies;
+* `ILTI` (a timing invariant of the block system): the body of an ingest task of an observation
+  admitted at `ast` with duration `D` ends at `ast + D - 1`, the supervisor ends at `ast + D`,
+  hence an allocation process left behind by its supervisor polls (and returns its machine)
+  before the telescope's next block. -/
+
+/-- **L3 refines L2.**  Every state of an uninterrupted run of the deterministic simulator is a
+state of the block system, reached by resuming each time a process of minimal wake time with the
+simulator's oracle — up to the `halted` flag, which the kernel raises when it pops the failure
+event of a process that raised and which no block reads.  Hence every trajectory theorem of the
+block system stated over `ReachOk` (C01, C02, C04, C05, C08, C09 …) holds along the simulator's
+runs (`L3_transfer`). -/
+theorem L3_refines_L2 (env : SimEnv) (s0 : Sys) (hw : Sys.WFConfig s0) (k : SimState)
+    (h : SimRun env s0 k) :
+    ∃ s, Sys.ReachOk s0 s ∧ (k.st = s ∨ (k.st = { s with halted := true } ∧ k.st.halted = true)) :=
+  l3_refines_reach env s0 hw k h
+
+theorem L3_transfer (env : SimEnv) (s0 : Sys) (hw : Sys.WFConfig s0) (P : Sys → Prop)
+    (hP : ∀ s, Sys.ReachOk s0 s → P s) (hhalt : ∀ s, P s → P { s with halted := true }) (k : SimState)
+    (h : SimRun env s0 k) : P k.st :=
+  l3_transfer env s0 hw P hP hhalt k h
+
+/-- … more precisely the runs of the simulator are runs in which the supervisors' blocks follow
+the telescope's block of the instant and no delay is imposed on task bodies from outside -/
+theorem L3_refines_ReachOrd (env : SimEnv) (s0 : Sys) (hw : Sys.WFConfig s0) (k : SimState)
+    (h : SimRun env s0 k) :
+    ∃ s, Sys.ReachOrd s0 s ∧ (k.st = s ∨ (k.st = { s with halted := true } ∧ k.st.halted = true)) :=
+  l3_refines_reachOrd env s0 hw k h
+
+/-- an example of the transfer: the cluster invariant (C02) along the simulator's runs -/
+example (env : SimEnv) (s0 : Sys) (hw : Sys.WFConfig s0) (k : SimState) (h : SimRun env s0 k) :
+    ∃ U, Cluster.Inv k.st.cl U :=
+  L3_transfer env s0 hw (fun s => ∃ U, Cluster.Inv s.cl U) (fun s hs => Sys.reach_cluster_inv s0 s hw hs)
+    (fun _ h => h) k h
+
+/-- every executable entry point stays inside `SimReach` -/
+theorem C08_simReach_api (env : SimEnv) (s0 : Sys) (u v fuel fuel' steps now : Nat) :
+    SimReach env s0 (SimState.startUntil env s0 u fuel) ∧
+    SimReach env s0 (SimState.resumeUntil env (SimState.startUntil env s0 u fuel) v fuel') ∧
+    SimReach env s0 (SimState.runToCompletion env fuel steps now (SimState.start s0)).1 :=
+  ⟨SimReach.startUntil env s0 u fuel, (SimReach.startUntil env s0 u fuel).resumeUntil v fuel',
+    SimReach.start.runToCompletion fuel steps now⟩
+
+theorem C08_simReach_runsTo (env : SimEnv) (s0 : Sys) (u : Time) (k : SimState)
+    (h : KState.RunsTo (simHandler env) u (SimState.start s0) k) : SimReach env s0 k :=
+  SimReach.start.runsTo h
+
+/-- **The ingest limit in SimPy's order.**  In every state of every run of the simulator — any
+delay table / delay script / static plans (`env`), any shipped algorithm, with or without pauses,
+before or after an exception — the number of machines running ingest is within the telescope's
+ingest limit. -/
+theorem C08_ingest_pool_simpy (env : SimEnv) (s0 : Sys) (hw : Sys.WFConfig s0) (k : SimState)
+    (h : SimReach env s0 k) : k.st.cl.ingest.length ≤ k.st.maxIngest := by
+  have := (sim_ingest_limit env s0 hw k h).1
+  omega
+
+/-- … counting also the machines promised to admitted observations not yet provisioned -/
+theorem C08_ingest_limit_simpy (env : SimEnv) (s0 : Sys) (hw : Sys.WFConfig s0) (k : SimState)
+    (h : SimReach env s0 k) : k.st.cl.ingest.length + k.st.ingestPromised ≤ k.st.maxIngest :=
+  (sim_ingest_limit env s0 hw k h).1
+
+/-- the order fact itself: whenever the kernel is about to resume the telescope, no ingest
+machine is stale -/
+theorem C08_telescope_sees_no_stale (env : SimEnv) (s0 : Sys) (hw : Sys.WFConfig s0) (k : SimState)
+    (h : SimReach env s0 k) (e : HEntry) (hpk : k.peek = some e) (p : Proc)
+    (hp : k.st.proc? e.pid = some p) (ha : p.alive = true) (hk : p.k = .telescope) :
+    k.st.ingestStale = 0 := by
+  have hinv := h.l3inv hw
+  obtain ⟨hen, _⟩ := hinv.heap.enabled hinv.sinv.pw hpk hp ha
+  obtain ⟨p', hp', _, hmin⟩ := hen
+  rw [hp] at hp'; cases hp'
+  exact hinv.ti.no_stale (Sys.proc?_some hp).1 ha hk hmin
+
+/-- the same bound for the block system under the order hypothesis alone (no kernel) -/
+theorem C08_ingest_limit_ordered (s0 s : Sys) (hw : Sys.WFConfig s0) (h : Sys.ReachOrd s0 s) :
+    s.cl.ingest.length + s.ingestPromised ≤ s.maxIngest :=
+  Sys.reach_ingest_ord s0 s hw h
+
+/-- non-vacuity: after 15 kernel steps on `c08W0` the simulator has two machines ingesting, the
+limit; after 24 steps the supervisor of A has ended while A's allocation process still holds its
+machine (one stale machine, inside the instant, after the telescope's block), and the next step
+gives it back -/
+example : ∃ k, SimReach {} Sys.c08W0 k ∧ k.st.cl.ingest.length = k.st.maxIngest ∧ 0 < k.st.maxIngest :=
+  ⟨_, SimReach.start.steps 15, by rw [c08Sim15.1, c08Sim15.2]; rfl, by rw [c08Sim15.2]; decide⟩
+
+example : ∃ k, SimReach {} Sys.c08W0 k ∧ k.st.ingestStale = 1 ∧ k.st.cl.ingest.length = 2 :=
+  ⟨_, SimReach.start.steps 24, c08Sim24.2.1, by rw [c08Sim24.1]; rfl⟩
+
 end Topsim
